@@ -31,9 +31,11 @@ def bounded(tier, seed):
         inner = [rnd.choice(FM_LINES) for _ in range(k)]
         inner = [l for l in inner if l.strip() != "---"]
         nl = rnd.choice(("\n", "\r\n"))
-        lead = rnd.choice(("", "", "\n", "\n\n"))
-        fm_src = lead + nl.join(["---"] + inner + ["---"]) + nl
-        fm_want = "\n".join(["---"] + inner + ["---"]) + "\n"
+        lead = rnd.choice(("", "", "\n", "\n\n", nl, "  " + nl, " \t" + nl + nl))
+        opener = rnd.choice(("---", "---", "---", " ---", "---  ", "  ---\t"))
+        closer = rnd.choice(("---", "---", "---  ", " ---"))
+        fm_src = lead + nl.join([opener] + inner + [closer]) + nl
+        fm_want = "\n".join([opener] + inner + [closer]) + "\n"
         body = rnd.choice(BODIES)
         o = dict(width=rnd.choice((0, 40, 88)), semantic=rnd.random() < .5, cleanups=rnd.random() < .5,
                  smartquotes=rnd.random() < .5, ellipses=rnd.random() < .5, list_spacing=rnd.choice(list(ListSpacing)))
@@ -66,7 +68,7 @@ def bounded(tier, seed):
                 viol.append({"clause": "unclosed_unchanged", "input": {"text": src}, "got": [o1, o2]})
     return {"evaluations": evals, "distinct_nontrivial": len(distinct), "violations": viol, "samples": samples,
             "rule": "seeded frontmatter blocks (0-3 lines from a 20-item pool incl. U+2028/2029, FF, VT, FS/GS/RS, NEL, lone CR, TAB, NBSP, quotes, "
-                    "Markdown syntax, trailing spaces, blank lines; LF or CRLF; optional leading blank lines) x 6 bodies x seeded "
+                    "Markdown syntax, trailing spaces, blank lines; LF or CRLF; optional leading blank / whitespace-only lines in LF or CRLF, delimiter lines with surrounding blanks) x 6 bodies x seeded "
                     "option sets: output starts with the block (CRLF->LF only), the rest equals format(body), idempotent; every pair "
                     "of 8 lines as an unclosed block x 3 endings: unchanged up to a final newline, twice; distinct = distinct "
                     "(frontmatter lines, body, newline style)",
